@@ -103,7 +103,12 @@ impl<'a> Header<'a> {
         let mut flags = self.z_flags.bits();
 
         flags |= (self.opcode as u16) << masks::OPCODE_MASK.trailing_zeros();
-        flags |= self.response_code as u16 & masks::RESPONSE_CODE_MASK;
+        flags |= match self.response_code {
+            // a reserved code carries no value, keep it reserved on the wire instead of
+            // letting its discriminant alias FormatError
+            RCODE::Reserved => masks::RESPONSE_CODE_MASK,
+            response_code => response_code as u16 & masks::RESPONSE_CODE_MASK,
+        };
 
         flags
     }
